@@ -326,6 +326,8 @@ structure State where
   -- plugin
   lastConf : Option (List Pool) := none
   nodeCache : Tbl String Subnet := []
+  -- what the FloatingIP informer's cache shows: the store objects as of its last sync
+  vFips : Tbl IP Rec := []
   -- the addresses an administrator has reserved (labelled FloatingIP objects created by hand) with their records
   admin : Tbl IP Rec := []
   -- the checklist (`resyncMeta.allocatedIPs`) of a resync pass in progress: taken by `resyncSnap`, consumed entry by
@@ -587,8 +589,11 @@ def toHInfo (s : State) (ip : IP) : HInfo :=
   | some p => { ip := ip, bits := p.bits, gw := p.gateway, vlan := p.vlan }
   | none => { ip := ip, bits := 0, gw := 0, vlan := 0 }
 
-/-- every FloatingIP object the list call returns -/
-def listed (s : State) : Tbl IP Rec := s.store ++ s.orphans
+/-- every FloatingIP object the list of `ConfigurePool` returns: `listFloatingIPs` is a LIST against the API server
+    (regenerated fact) - it sees the store as it is.  A variant that serves the list from the FloatingIP informer's cache
+    sees the store as of the informer's last sync (`vFips`, move `fipSync`): the model with the fact false. -/
+def listed (s : State) : Tbl IP Rec :=
+  if Generated.Plugin.reloadListsApiserver then s.store ++ s.orphans else s.vFips
 
 /-- the listed objects whose address the new configuration contains (one per address) -/
 def confKeep (s : State) (ps : List Pool) : Tbl IP Rec := Tbl.dedup ((listed s).filter (fun e => configured ps e.1))
@@ -1133,7 +1138,7 @@ def reload (s : State) (pools : List Pool) : State × Out :=
 /-- a fresh process: informers re-listed, queued events and caches gone -/
 def restartBase (s : State) : State :=
   { s with events := [], nodeCache := [], lastConf := none, vPods := s.pods, vApps := s.apps, vPoolObjs := s.poolObjs,
-           resyncSnap := [] }
+           resyncSnap := [], vFips := s.store ++ s.orphans }
 
 /-- process restart: memory rebuilt from the store by `ConfigurePool(conf)` -/
 def restart (s : State) : State × Out :=
@@ -1155,6 +1160,7 @@ inductive Move
   | deleteApp (kind : Kind) (ns app : String)
   | setPool (name : String) (size : Option Nat)       -- none = delete the Pool object
   | listerSync (pods apps : Bool)
+  | fipSync                                              -- the FloatingIP informer catches up with the store
   | dropEvent (i : Nat)
   -- plugin entry points; `fault` / `pfault` = index of the apiserver / provider call that fails (0 = none)
   | filter (ns name : String) (nodes : List String) (ch : Choice) (fault : Nat)
@@ -1242,6 +1248,7 @@ def step (F : Facts) (s : State) : Move → State × Out
   | .listerSync pods apps =>
     let s1 := if pods then { s with vPods := s.pods } else s
     (if apps then { s1 with vApps := s1.apps, vPoolObjs := s1.poolObjs } else s1, {})
+  | .fipSync => ({ s with vFips := s.store ++ s.orphans }, {})
   | .dropEvent i =>
     if i < s.events.length then ({ s with events := s.events.eraseIdx i }, {}) else (s, Out.bad)
   | .filter ns name nodes ch fault => filter (withFaults s fault 0) ns name nodes ch
